@@ -312,6 +312,10 @@ def run_C20_asyncio(res, tier, seed, t_end):
             await b.rpush('q', 'elem')
             await asyncio.sleep(0.02)
             got = await b.lrange('q', 0, -1)
+            cbs = sum(len(db._change_callbacks) for db in srv.dbs.values())
+            leftovers.append(srv)
+            if cbs:
+                return '%d change callback(s) of the closed parked connection are still registered' % cbs
             return None if got == [b'elem'] else 'element pushed after the parked asyncio client was closed is gone: %r' % (got,)
         if mode == 'watching':
             async with a.pipeline() as p:
@@ -322,6 +326,7 @@ def run_C20_asyncio(res, tier, seed, t_end):
             w = sum(len(list(ws)) for db in srv.dbs.values() for ws in db._watches.values())
             return None if w == 0 else '%d watcher(s) left after the asyncio client was closed' % w
     errors = []
+    leftovers = []
 
     def handler(loop, ctx):
         errors.append(repr(ctx.get('exception') or ctx.get('message')))
@@ -335,6 +340,105 @@ def run_C20_asyncio(res, tier, seed, t_end):
                 loop.close()
             res.evaluations += 1
             res.cells.add(('aio-forget', mode))
+            if mode == 'parked' and not msg and leftovers:
+                # the loop of the closed client is gone: a later write by anybody must not trip over it
+                try:
+                    fakeredis.FakeStrictRedis(server=leftovers[-1]).rpush('q', 'later')
+                except Exception as e:
+                    msg = 'a write after the parked asyncio client and its loop were closed raised %r' % (e,)
             if msg or errors:
                 res.add(finding('C20', 'closed_socket_forgotten(asyncio)', msg or ('task exception: %s' % errors[:2])))
                 return
+
+
+# ----------------------------------------------------------------------------- C14 (client level)
+def run_C14(res, tier, seed, t_end):
+    """the same operations through FakeStrictRedis and through fakeredis.aioredis.FakeRedis give the same results,
+    including the connection-error emulation with replies already queued"""
+    real_time()
+    rng = random.Random(seed + 14)
+
+    def ops_sync(srv):
+        out = []
+        r = fakeredis.FakeStrictRedis(server=srv)
+
+        def do(f):
+            try:
+                out.append(('ok', plain(f())))
+            except Exception as e:
+                out.append(('exc', type(e).__name__))
+        do(lambda: r.set('k', 'v')); do(lambda: r.get('k')); do(lambda: r.rpush('l', 'a', 'b')); do(lambda: r.lrange('l', 0, -1))
+        do(lambda: r.execute_command('GET', 'l')); do(lambda: r.blpop('l', 1)); do(lambda: r.blpop('nolist', 1))
+        p = r.pipeline(); p.set('a', '1'); p.incr('a'); p.lpush('a', 'x'); p.get('a')
+        do(lambda: p.execute(raise_on_error=False) and [str(type(x).__name__) if isinstance(x, Exception) else x for x in p.execute(raise_on_error=False)] if False else None)
+        p2 = r.pipeline(transaction=True); p2.set('t', '1'); p2.get('t'); do(lambda: p2.execute())
+        ps = r.pubsub(); ps.subscribe('ch'); do(lambda: ps.get_message(timeout=0.2))
+        r.publish('ch', 'queued-before-outage')
+        srv.connected = False
+        do(lambda: ps.get_message(timeout=0.2))          # the reply queued before the outage is still handed out
+        do(lambda: ps.get_message(timeout=0.2))          # ... then the connection error shows
+        do(lambda: r.get('k'))
+        srv.connected = True
+        do(lambda: r.get('k'))
+        return out
+
+    async def ops_async(srv):
+        out = []
+        r = far.FakeRedis(server=srv)
+
+        async def do(f):
+            try:
+                out.append(('ok', plain(await f())))
+            except Exception as e:
+                out.append(('exc', type(e).__name__))
+        await do(lambda: r.set('k', 'v')); await do(lambda: r.get('k')); await do(lambda: r.rpush('l', 'a', 'b')); await do(lambda: r.lrange('l', 0, -1))
+        await do(lambda: r.execute_command('GET', 'l')); await do(lambda: r.blpop('l', 1)); await do(lambda: r.blpop('nolist', 1))
+        out.append(('ok', None))
+        p2 = r.pipeline(transaction=True); p2.set('t', '1'); p2.get('t'); await do(lambda: p2.execute())
+        ps = r.pubsub(); await ps.subscribe('ch'); await do(lambda: ps.get_message(timeout=0.2))
+        await r.publish('ch', 'queued-before-outage')
+        srv.connected = False
+        await do(lambda: ps.get_message(timeout=0.2))
+        await do(lambda: ps.get_message(timeout=0.2))
+        await do(lambda: r.get('k'))
+        srv.connected = True
+        await do(lambda: r.get('k'))
+        return out
+    for rnd in range(1 if tier == 'quick' else 5):
+        a = ops_sync(fakeredis.FakeServer())
+        loop = asyncio.new_event_loop()
+        try:
+            b = loop.run_until_complete(ops_async(fakeredis.FakeServer()))
+        finally:
+            loop.close()
+        res.evaluations += len(a)
+        res.cells.add(('client-diff', rnd))
+        if a != b:
+            i = next((j for j in range(min(len(a), len(b))) if a[j] != b[j]), min(len(a), len(b)))
+            res.add(finding('C14', 'async_client_eq_sync_client', 'step %d: sync client %r, asyncio client %r' % (i, a[i:i + 1], b[i:i + 1])))
+            return
+
+
+def run_C20_lockfree_close(res, tier, seed, t_end):
+    """close() may be called by the garbage collector at any time, also while the server lock is held: it must not take the lock"""
+    import threading
+    from fakeredis._fakesocket import FakeSocket
+    for mode in ('plain', 'subscribed', 'watching'):
+        srv = fakeredis.FakeServer()
+        s = FakeSocket(srv)
+        if mode == 'subscribed':
+            s.sendall(b'*2\r\n$9\r\nsubscribe\r\n$2\r\nch\r\n')
+        if mode == 'watching':
+            s.sendall(b'*2\r\n$5\r\nwatch\r\n$1\r\nk\r\n')
+        done = []
+        with srv.lock:
+            t = threading.Thread(target=lambda: (s.close(), done.append(1)), daemon=True)
+            t.start()
+            t.join(1.0)
+            blocked = t.is_alive()
+        t.join(1.0)
+        res.evaluations += 1
+        res.cells.add(('lockfree-close', mode))
+        if blocked:
+            res.add(finding('C20', 'close_is_lock_free', 'FakeSocket.close() of a %s connection blocks while the server lock is held (a GC finaliser inside a command would deadlock)' % mode))
+            return
